@@ -275,7 +275,7 @@ inline void drive_binary(const char* prop, const char* type, const char* opname,
                 a[i] = p.a; b[i] = p.b;
             }
             std::array<R, V::width> res;
-            bool ok = false;
+            volatile bool ok = false;
             unsigned focus = (unsigned)((base / W) % W);
             uint32_t cls = pcls((uint64_t)a[focus], (uint64_t)b[focus], bits);
             VK_GUARDED(cls, ("a=" + hex(a[focus]) + ",b=" + hex(b[focus]) + ",lane0a=" + hex(a[0]) + ",lane0b=" + hex(b[0])),
@@ -316,7 +316,7 @@ inline void drive_unary(const char* prop, const char* type, const char* opname,
                 a[i] = vals[j % n];
             }
             std::array<R, V::width> res;
-            bool ok = false;
+            volatile bool ok = false;
             unsigned focus = (unsigned)((base / W) % W);
             uint32_t cls = ucls((uint64_t)a[focus], bits);
             VK_GUARDED(cls, ("a=" + hex(a[focus])), { res = op(V(a)); ok = true; });
